@@ -359,6 +359,28 @@ func emit(w *bufio.Writer, ev map[string]any) {
 	w.Flush()
 }
 
+// selfTestOverflow: VERIF_TOTALITY_SELFTEST_OVERFLOW=<scenario id>:<n>:<counter file> makes the child die the way
+// apimachinery's FakeWatcher does (panic: channel full) the first n times it is given that scenario - used only by
+// the harness self-test of the retry / drop path (lib/selftest_totality.sh), never by a check.
+func selfTestOverflow(s *scenario, out *bufio.Writer) {
+	st := os.Getenv("VERIF_TOTALITY_SELFTEST_OVERFLOW")
+	if st == "" {
+		return
+	}
+	parts := strings.SplitN(st, ":", 3)
+	if len(parts) != 3 || parts[0] != s.ID {
+		return
+	}
+	n := 0
+	fmt.Sscanf(parts[1], "%d", &n)
+	b, _ := os.ReadFile(parts[2])
+	if len(b) < n {
+		_ = os.WriteFile(parts[2], append(b, 'x'), 0o644)
+		out.Flush()
+		panic("channel full")
+	}
+}
+
 func child() {
 	sim.Init(0)
 	in := bufio.NewReaderSize(os.Stdin, 1<<20)
@@ -372,6 +394,7 @@ func child() {
 				os.Exit(3)
 			}
 			emit(out, s.event())
+			selfTestOverflow(&s, out)
 			c := build(&s)
 			res := sim.RunCycle(c,
 				func() { emit(out, map[string]any{"ev": "CycleStart"}) },
